@@ -261,7 +261,8 @@ def known_match(prop, **kw):
 # through instances in typed contexts; (2) explicit overloads of predefined operations followed by an alias of the type
 # in the same region, arrays whose element is named by a subtype with ordering operators and MINIMUM/MAXIMUM;
 # (3) individual association in calls of overloaded subprograms and in port maps, generate statements (case / if-elsif-else /
-# for) whose alternatives reuse labels and declared names, labelled loops with exit / next <label> [when condition].  (The MiniVHDL reference has generic packages with constant generics only —
+# for) whose alternatives reuse labels and declared names, labelled loops with exit / next <label> [when condition];
+# (5) arrays whose element is a SUBTYPE of a character enumeration with string / bit-string literals typed bottom-up.  (The MiniVHDL reference has generic packages with constant generics only —
 # types inside a generic package need per-instance type identity, which the reference does not model — so these
 # programs are hand-written templates with parameters, valid by inspection, NOT covered by the theorems.)
 # ----------------------------------------------------------------------------------------------
@@ -641,6 +642,104 @@ end package;
     return lib, [("w_pkg.vhd", pkg), ("w_user.vhd", "\n".join(L) + "\n")]
 
 
+def template_program5(k, r):
+    """arrays whose ELEMENT is a subtype (constrained or not, also a subtype of a subtype, std_logic / X01 of
+    ieee.std_logic_1164) of a character-enumeration type, with string / bit-string literals whose type is inferred
+    bottom-up: operands of = /= < <= > >= &, of a user operator, actuals of overloaded functions / procedures
+    (positional and named), MINIMUM/MAXIMUM, aggregates with `others` as the actual of a constrained formal"""
+    lib = "xl%d" % k
+    pk, ent = "spk%d" % k, "sent%d" % k
+    base_kind = r.randrange(4)
+    pre, tdecl = [], []
+    if base_kind == 0:
+        base = "level_t"
+        tdecl = ["  type level_t is ('U', '0', '1', 'Z');", "  type raw_t is array (natural range <>) of level_t;"]
+        first = r.choice(["level_t range '0' to '1'", "level_t", "level_t range '0' to 'Z'"])
+    elif base_kind == 1:
+        pre = ["library ieee;", "use ieee.std_logic_1164.all;"]
+        first = r.choice(["std_logic", "std_logic range '0' to '1'", "std_ulogic range '0' to '1'", "X01", "resolved std_ulogic",
+                          "std_ulogic"])
+    elif base_kind == 2:
+        first = r.choice(["bit", "bit range '0' to '1'"])
+    else:
+        first = r.choice(["character range '0' to 'Z'", "character"])
+    depth = 1 + r.randrange(2)
+    tdecl.append("  subtype drive_t is %s;" % first)
+    elem = "drive_t"
+    if depth == 2:
+        tdecl.append("  subtype drive2_t is drive_t%s;" % r.choice(["", " range '0' to '1'"]))
+        elem = "drive2_t"
+    if base_kind == 1 and depth == 1 and r.randrange(2) == 0:
+        elem = r.choice(["std_logic", "X01", "UX01"])      # the classic `array (natural range <>) of std_logic`
+    index = r.choice(["natural range <>", "positive range <>", "integer range <>"])
+    rng4, rng6, rng5 = r.choice([("(4 downto 1)", "(6 downto 1)", "(5 downto 1)"), ("(1 to 4)", "(1 to 6)", "(1 to 5)")])
+
+    def s4():
+        return '"%s"' % "".join(r.choice("01") for _ in range(4))
+
+    def b4():
+        return r.choice(['x"%s"' % r.choice("0123456789ABCDEF"), 'b"%s"' % "".join(r.choice("01") for _ in range(4)), s4()])
+
+    def s2():
+        return r.choice(['"%s"' % "".join(r.choice("01") for _ in range(2)), 'b"%s"' % "".join(r.choice("01") for _ in range(2))])
+
+    three = r.randrange(2) == 0
+    pkg = pre + ["package %s is" % pk] + tdecl + [
+        "  type word_t is array (%s) of %s;" % (index, elem),
+        "  subtype w4_t is word_t%s;" % rng4,
+        "  type cword_t is array (0 to 3) of %s;" % elem,
+        "  type pair_t is record", "    a : integer;", "    b : boolean;", "  end record;",
+        "  function weight (x : word_t) return natural;", "  function weight (x : integer) return natural;"]
+    if three:
+        pkg.append("  function weight (x : pair_t) return natural;")
+    pkg += ["  function cweight (x : cword_t) return natural;", "  function cweight (x : boolean) return natural;",
+            "  procedure put (x : in word_t);", "  procedure put (x : in integer);", "  procedure put (x : in word_t; y : in boolean);",
+            '  function "+" (l, r : word_t) return word_t;',
+            "  constant k0 : w4_t := %s;" % s4(), "  constant k1 : cword_t := %s;" % s4(), "end package;"]
+    body = ["package body %s is" % pk,
+            "  function weight (x : word_t) return natural is", "  begin", "    return x'length;", "  end function;",
+            "  function weight (x : integer) return natural is", "  begin", "    return 0;", "  end function;"]
+    if three:
+        body += ["  function weight (x : pair_t) return natural is", "  begin", "    return x.a;", "  end function;"]
+    body += ["  function cweight (x : cword_t) return natural is", "  begin", "    if x = %s then return 1; end if;" % s4(), "    return 4;", "  end function;",
+             "  function cweight (x : boolean) return natural is", "  begin", "    return 1;", "  end function;",
+             "  procedure put (x : in word_t) is", "  begin", "    assert x /= %s;" % s2(), "  end procedure;",
+             "  procedure put (x : in integer) is", "  begin", "    null;", "  end procedure;",
+             "  procedure put (x : in word_t; y : in boolean) is", "  begin", "    put(x & %s);" % s2(), "  end procedure;",
+             '  function "+" (l, r : word_t) return word_t is', "  begin", "    if l < r then return r; else return l; end if;", "  end function;",
+             "end package body;"]
+    rel = ["=", "/=", "<", "<=", ">", ">="]
+    u = pre + ["library %s;" % lib, "use %s.%s.all;" % (lib, pk), "entity %s is" % ent, "end entity;", "architecture a of %s is" % ent,
+               "  signal w, v : word_t%s := %s;" % (rng4, s4()), "  signal w6 : word_t%s;" % rng6, "  signal w5 : word_t%s;" % rng5,
+               "  signal cw : cword_t := (others => '0');", "  signal b0, b1, b2 : boolean;", "  signal n : natural;",
+               "  constant c1 : boolean := k0 = %s;" % b4(), "  constant c2 : boolean := %s /= k0;" % b4(),
+               "  constant c3 : boolean := k0 %s %s;" % (r.choice(rel), b4()), "  constant c4 : word_t%s := k0 & %s;" % (rng6, s2()),
+               "  constant c5 : word_t%s := %s & k0;" % (rng6, s2()), "  constant c6 : word_t%s := '1' & k0;" % rng5,
+               "  constant c7 : natural := weight(%s);" % b4(), "  constant c8 : natural := weight(x => %s);" % b4(),
+               "  constant c9 : natural := cweight((others => '1'));", "  constant c10 : natural := cweight(%s);" % s4(),
+               "  constant c11 : word_t%s := k0 + %s;" % (rng4, b4()), "  constant c12 : boolean := (k0 & %s) %s \"010101\";" % (s2(), r.choice(rel)),
+               "  constant c13 : natural := weight(k0 & %s);" % s2(), "  constant c14 : boolean := k1 %s %s;" % (r.choice(rel), s4()),
+               "  constant c15 : w4_t := maximum(k0, %s);" % s4(), "  constant c16 : natural := weight(%s + k0);" % s4(),
+               "  constant c17 : natural := cweight(k1 = %s);" % s4(), "  constant c18 : word_t%s := k0 & '0' & %s;" % (r.choice(["(7 downto 1)", "(1 to 7)"]), s2()),
+               "begin",
+               "  b0 <= w %s %s;" % (r.choice(rel), b4()), "  b1 <= w /= %s or v %s %s;" % (b4(), r.choice(rel), s4()),
+               "  b2 <= cw = %s and %s = cw;" % (s4(), s4()),
+               "  w6 <= w & %s;" % s2(), "  w5 <= w & '1';",
+               "  n <= weight(%s) + cweight(%s);" % (b4(), s4()),
+               "  cw <= %s when w = %s else (others => '0');" % (s4(), b4()),
+               "  v <= w + %s when %s < v else %s;" % (s4(), s4(), s4()),
+               "  pr : process", "    variable x : word_t%s;" % rng4, "    variable ok : boolean;", "  begin",
+               "    put(%s);" % b4(), "    put(x => %s);" % b4(), "    put(%s, true);" % s4(), "    put(x => %s, y => ok);" % b4(),
+               "    put(x & %s);" % s2(), "    put(7);",
+               "    if x = %s then" % b4(), "      x := x + %s;" % s4(), "    elsif %s %s x then" % (s4(), r.choice(rel)), "      x := (others => '1');", "    end if;",
+               "    ok := x <= %s and %s <= x;" % (s4(), s4()), "    ok := minimum(x, %s) = x;" % s4(),
+               "    case x is", "      when %s =>" % '"0000"', "        ok := true;", "      when others =>", "        ok := false;", "    end case;",
+               "    assert w = %s report \"differs\" severity note;" % b4(),
+               "    while x /= %s loop" % s4(), "      x := x + %s;" % b4(), "    end loop;",
+               "    wait until w = %s;" % s4(), "    wait;", "  end process;", "end architecture;"]
+    return lib, [("x_pkg.vhd", "\n".join(pkg) + "\n"), ("x_body.vhd", "\n".join(body) + "\n"), ("x_user.vhd", "\n".join(u) + "\n")]
+
+
 def template_bundle(seed_, n, path, mode="w", first=0):
     r = random.Random(seed_ * 31 + 5)
     with open(path, mode) as f:
@@ -670,6 +769,21 @@ def check_templates(res, hbin, d, tier):
                 template_bundle(int(f[0]), int(f[1]), path, mode="a", first=first)
                 first += int(f[1])
     n = first
+    # fifth family (own pid prefix `s`, so the seeds of the families above and of corpus/C05.templates are unchanged)
+    n5 = 16 if tier == "quick" else 300
+    r5 = random.Random(seed() * 131 + 11)
+    with open(path, "a") as f:
+        for k in range(n5):
+            lib, files = template_program5(k, r5)
+            f.write("P s%d\n" % k)
+            for name, text in files:
+                lines = text.split("\n")
+                if lines and lines[-1] == "":
+                    lines = lines[:-1]
+                f.write("F %s %s_%s %d\n" % (lib, lib, name, len(lines)))
+                for l in lines:
+                    f.write(l + "\n")
+    res.coverage["template_programs_enum_subtype_element_arrays"] = n5
     # the attribute matrix restricted to VHDL-1993 constructs, for the run under standard = "1993"
     path93 = os.path.join(d, "templates93.bundle")
     r93 = random.Random(seed() * 17 + 3)
@@ -706,7 +820,8 @@ def check_templates(res, hbin, d, tier):
                     what = ("Project::analyse panics" if (o and o["panic"]) else
                             "error diagnostic: " + describe_diag(errors_of(o)[0]) if o else "no result")
                     res.violation("template program under standard %s (generic packages / explicit operator overloads + alias / "
-                                  "arrays of subtypes / individual association, generates / attribute matrix; valid by inspection; "
+                                  "arrays of subtypes / individual association, generates / attribute matrix / string and bit-string literals "
+                                  "inferred bottom-up for arrays whose element is a subtype of a character enumeration; valid by inspection; "
                                   "exploration only, outside the theorems): " % (standard or "default") + what,
                                   {"kind": "input", "template": pid, "standard": standard, "seed": seed(), "files": b.text_of(pid),
                                    "diagnostics": [describe_diag(x) for x in (errors_of(o) if o else [])][:10]})
@@ -917,7 +1032,14 @@ def main(tier, replay=None):
                         "followed by an alias of the type in the same region, and compares arrays whose element is named by "
                         "a subtype (natural, std_logic, user subtypes) with < <= > >= and MINIMUM/MAXIMUM; every third one has "
                         "individual association in overloaded calls and port maps, case/if/for generate statements whose "
-                        "alternatives reuse labels and names, and labelled loops with exit/next <label> when"),
+                        "alternatives reuse labels and names, and labelled loops with exit/next <label> when; a further "
+                        "hand-written family (coverage.template_programs_enum_subtype_element_arrays, pids s<k>) declares "
+                        "one-dimensional arrays (unconstrained and constrained) whose ELEMENT is a subtype - constrained or "
+                        "not, subtype of a subtype, resolved, std_logic / X01 / UX01 of ieee.std_logic_1164 - of a character "
+                        "enumeration (user type, std_ulogic, bit, character) and uses string and bit-string literals where "
+                        "their type is inferred bottom-up: operands of = /= < <= > >= &, of a user \"+\", of MINIMUM/MAXIMUM, "
+                        "actuals (positional and named) of overloaded functions and procedures, `others` aggregates as "
+                        "actuals of a constrained formal of an overloaded function"),
         "partial": True,
         "trusted_base": TRUSTED_BASE_COMMON + [
             "the reference semantics Mini/Sem.v is a sufficient condition for LRM validity on the fragment (two conservative "
